@@ -110,6 +110,9 @@ struct IVec {
   virtual void release(Arena& a) = 0;
   virtual void reset() = 0;
   virtual void sort() = 0;
+  virtual void sort_desc() = 0;
+  virtual void unchecked(int kind, size_t i, uint32_t x, IVec& o) = 0;
+  virtual void move_roundtrip(size_t& sz, size_t& cp, bool& nul) = 0;
   virtual size_t index_of(uint32_t x, int kind) = 0;
   virtual std::vector<uint32_t> iter(bool rev) = 0;
   virtual std::vector<uint32_t> items(bool& ok) = 0;
@@ -136,6 +139,19 @@ template<class T> struct VecT : IVec {
   void release(Arena& a) override { v.release(a); }
   void reset() override { v.reset(); }
   void sort() override { v.sort(); }
+  void sort_desc() override { v.sort(Support::Compare<Support::SortOrder::kDescending>()); }
+  void unchecked(int kind, size_t i, uint32_t x, IVec& o) override {
+    if (kind == 0) v.append_unchecked(mk<T>(x));
+    else if (kind == 1) v.prepend_unchecked(mk<T>(x));
+    else if (kind == 2) v.insert_unchecked(i, mk<T>(x));
+    else if (kind == 3) v.concat_unchecked(static_cast<VecT<T>&>(o).v);
+    else v.assign_unchecked(static_cast<VecT<T>&>(o).v);
+  }
+  void move_roundtrip(size_t& sz, size_t& cp, bool& nul) override {
+    ArenaVector<T> tmp(std::move(v));
+    sz = v.size(); cp = v.capacity(); nul = v.data() == nullptr;
+    v.swap(tmp);
+  }
   size_t index_of(uint32_t x, int kind) override {
     T t = mk<T>(x);
     if (kind == 0) return v.index_of(t);
@@ -191,7 +207,7 @@ struct World {
   vj::Rng& r;
   Arena* arena = nullptr;
   uint8_t* static_buf = nullptr; size_t static_n = 0; size_t blk = 1024;
-  bool after_soft = false;        // general random histories do not request more than a retained block can hold
+  bool after_soft = false;        // a soft reset happened and no hard reset since (random driver then also asks for more than retained blocks hold)
   bool dead = false;              // chain corrupted: stop the execution (the trace is rejected by the spec)
   std::vector<Region> regs; uint32_t next_reg = 1;
   // containers
@@ -252,6 +268,11 @@ struct World {
     for (auto* c : chain) range(c->data(), c->size);
     W.endArr();
     W.kv("cur", cur).kv("bad", bad);
+    if (!bad) {
+      ArenaStatistics stt = arena->statistics();
+      auto cl = [](size_t v) { return (long long)std::min<size_t>(v, 2000000000u); };
+      W.key("stats").beginArr().val(cl(stt.block_count())).val(cl(stt.used_size())).val(cl(stt.reserved_size())).endArr();
+    } else W.key("stats").beginArr().endArr();
     W.key("ptr"); addr(arena->_ptr); W.key("end"); addr(arena->_end);
     W.key("dyn").beginArr();
     Arena::DynamicBlock* d = arena->_dynamic_blocks; guard = 0;
@@ -295,11 +316,7 @@ struct World {
   }
 
   size_t live_raw() { return regs.size(); }
-  // General random histories never ask a soft-reset arena for more than every retained block can hold: that case
-  // (the walk over retained blocks in Arena::_alloc_oneshot) is exercised by dedicated scripted scenarios instead,
-  // so that one defect there cannot reject most random executions.  With 4 KiB blocks every retained block holds
-  // >= 4048 bytes and no chain request of this driver after a soft reset exceeds 3000 bytes.
-  bool soft_ok() const { return blk >= 4096; }
+
 
   void arena_alloc(const char* kind, size_t n) {
     ev_arena_begin();
@@ -398,6 +415,14 @@ struct World {
     else if (name == "swap") { V.swap(*vec[o]); two = true; }
     else if (name == "release") V.release(*arena);
     else if (name == "sort") V.sort();
+    else if (name == "sort_desc") V.sort_desc();
+    else if (name == "appendn") { Error e = Error::kOk; for (long long i = 0; i < a && e == Error::kOk; i++) e = V.append(*arena, (uint32_t)(b + i)); W.val(err_name(e)); }
+    else if (name == "append_u") V.unchecked(0, 0, (uint32_t)a, *vec[o]);
+    else if (name == "prepend_u") V.unchecked(1, 0, (uint32_t)a, *vec[o]);
+    else if (name == "insert_u") V.unchecked(2, (size_t)a, (uint32_t)b, *vec[o]);
+    else if (name == "concat_u") { V.unchecked(3, 0, 0, *vec[o]); two = true; }
+    else if (name == "assign_u") { V.unchecked(4, 0, 0, *vec[o]); two = true; }
+    else if (name == "move") { size_t sz, cp; bool nul; V.move_roundtrip(sz, cp, nul); W.val((long long)sz).val((long long)cp).val(nul); }
     else if (name == "index_of") { size_t i = V.index_of((uint32_t)a, 0); W.val(i == SIZE_MAX ? -1ll : (long long)i); }
     else if (name == "last_index_of") { size_t i = V.index_of((uint32_t)a, 1); W.val(i == SIZE_MAX ? -1ll : (long long)i); }
     else if (name == "contains") W.val((long long)V.index_of((uint32_t)a, 2));
@@ -441,7 +466,7 @@ struct World {
     }
     W.endArr();
   }
-  void hash_op(const std::string& name, int t, long long a = 0) {
+  void hash_op(const std::string& name, int t, long long a = 0, long long b = 0) {
     *g_cur = C_HASH;
     auto& H = hash[t];
     void* d0 = H._data; void* d1 = hash[t ^ 1]._data;
@@ -464,6 +489,22 @@ struct World {
       W.endArr();
       HNode* rr = H.get(HKey{(uint32_t)a, hcode((uint32_t)a)});
       W.key("r").beginArr().val(rr ? (long long)rr->id : 0ll).val(rr ? (long long)rr->key : -1ll).endArr();
+    } else if (name == "insn") {     // a = first key, b = count ; node ids are consecutive from the logged first id
+      uint32_t id0 = (uint32_t)hnodes.size() + 1;
+      W.val(b).val((long long)id0).endArr();
+      bool ok = true;
+      for (long long i = 0; i < b; i++) {
+        uint32_t key = (uint32_t)(a + i);
+        HNode* n = arena->new_oneshot<HNode>(hcode(key), key, (uint32_t)hnodes.size() + 1);
+        hnodes.push_back(n);
+        ok &= H.insert(*arena, n) == n;
+      }
+      W.key("r").beginArr().val(ok).endArr();
+    } else if (name == "remn") {     // a = first node id, b = count : removes those of the nodes that are in this table
+      W.val(b).endArr();
+      long long cnt = 0;
+      for (long long i = 0; i < b && (size_t)(a + i) <= hnodes.size(); i++) { HNode* n = hnodes[(size_t)(a + i) - 1]; HNode* rr = H.remove(*arena, n); if (rr == n) cnt++; else if (rr) cnt = -1000000; }
+      W.key("r").beginArr().val(cnt).endArr();
     } else if (name == "swap") { W.endArr(); H.swap(hash[t ^ 1]); two = true; W.key("r").beginArr().endArr(); }
     else if (name == "release") { W.endArr(); H.release(*arena); W.key("r").beginArr().endArr(); }
     else { W.endArr(); two = true; W.key("r").beginArr().endArr(); }
@@ -481,14 +522,23 @@ struct World {
     tree_node(n->right(), depth + 1);
     W.endArr();
   }
-  void tree_op(const std::string& name, int t, long long k = 0) {
+  void tree_op(const std::string& name, int t, long long k = 0, long long b = 0, long long c = 0) {
     *g_cur = C_TREE;
     auto& T = tree[t];
     W.beginObj().kv("e", "Op");
-    W.key("op").beginArr().val(name).val(t + 1).val(k).endArr();
+    W.key("op").beginArr().val(name).val(t + 1).val(k).val(b).val(c).endArr();
     W.key("r").beginArr();
     bool two = false;
-    if (name == "ins") { TNode* n = arena->new_oneshot<TNode>((uint32_t)k); T.insert(n); tkeys[t].insert((uint32_t)k); }
+    if (name == "insn" || name == "remn") {      // keys k .. k+b-1, ascending (c = 0) or descending (c = 1)
+      long long cnt = 0;
+      for (long long i = 0; i < b; i++) {
+        uint32_t key = (uint32_t)(c ? k + b - 1 - i : k + i);
+        if (name == "insn") { if (!tkeys[t].count(key)) { T.insert(arena->new_oneshot<TNode>(key)); tkeys[t].insert(key); cnt++; } }
+        else { TNode* n = T.get(key); if (n) { T.remove(n); tkeys[t].erase(key); cnt++; } }
+      }
+      W.val(cnt);
+    }
+    else if (name == "ins") { TNode* n = arena->new_oneshot<TNode>((uint32_t)k); T.insert(n); tkeys[t].insert((uint32_t)k); }
     else if (name == "rem") { TNode* n = T.get((uint32_t)k); W.val(n != nullptr); if (n) { T.remove(n); tkeys[t].erase((uint32_t)k); } }
     else if (name == "get") { TNode* n = T.get((uint32_t)k); W.val(n ? (long long)n->key : -1ll); }
     else if (name == "swap") { T.swap(tree[t ^ 1]); std::swap(tkeys[0], tkeys[1]); two = true; }
@@ -728,6 +778,7 @@ static void str_exec(World& w, const StrOp& o0) {
   else if (o.name == "move") { *w.str[o.s] = std::move(*w.str[o.s ^ 1]); two = true; }
   else if (o.name == "assign_str") { W.val(err_name(S.assign(*w.str[o.a]))); }
   else if (o.name == "append_str") { W.val(err_name(S.append(*w.str[o.a]))); }
+  else if (o.name == "assign_sub") W.val(err_name(S.assign(S.data() + o.a, (size_t)o.b)));
   else if (o.name == "eq") W.val(S.equals(text.data(), text.size()) ? 1 : 0);
   else if (o.name == "eq_cstr") W.val(S.equals(text.c_str()) ? 1 : 0);
   else if (o.name == "eq_str") W.val(S.equals(*w.str[o.a]) ? 1 : 0);
@@ -775,8 +826,8 @@ static void random_str(World& w, vj::Rng& r) {
   else if (c < 38) { o.name = "chars"; o.a = 'A' + (long long)r.below(26); o.b = (long long)(r.chance(1, 3) ? len_near_cap() : pick_size(r, edges, 300)); }
   else if (c < 52) {
     o.name = "num"; o.conv = r.chance(1, 2) ? 'd' : 'u';
-    static const uint32_t bases[] = {0, 2, 8, 10, 16, 16, 10, 3, 36, 1, 7};
-    o.a = bases[r.below(11)];
+    static const uint32_t bases[] = {0, 2, 8, 10, 16, 16, 10};
+    o.a = r.chance(1, 2) ? bases[r.below(7)] : (uint32_t)r.below(39);     // every base 0..38 (2..36 exist, the others must be refused)
     static const size_t widths[] = {0, 0, 1, 5, 20, 64, 70, 255, 256, 257, 1000};
     o.b = (long long)widths[r.below(11)];
     o.c = (long long)r.below(8);
@@ -797,9 +848,6 @@ static void random_str(World& w, vj::Rng& r) {
     size_t n = r.chance(1, 2) ? len_near_cap() : pick_size(r, edges, 1100);
     n = n >= (size_t)o.a ? n - (size_t)o.a : 0;
     if (r.chance(1, 6)) n = 0;
-    // the output that fills a >= 128 byte remaining capacity exactly is exercised by dedicated scripted scenarios
-    // (script op "fmts" with b = 1) so that a defect there cannot reject most random executions
-    { size_t start = o.assign ? 0 : S.size(); size_t rem = S.capacity() - start; if (rem >= 128 && n + (size_t)o.a == rem) n--; }
     text(n);
   }
   else if (c < 76) {
@@ -824,7 +872,10 @@ static void random_str(World& w, vj::Rng& r) {
     if (m == 1 && !o.bytes.empty()) o.bytes.back() ^= 1; else if (m == 2) o.bytes.push_back('z'); else if (m == 3 && !o.bytes.empty()) o.bytes.pop_back();
     for (auto& b : o.bytes) if (b == 0) b = 1;
   }
-  else if (c < 98) { o.name = "eq_str"; o.a = (long long)r.below(3); }
+  else if (c < 98) {
+    if (r.chance(1, 2)) { o.name = "eq_str"; o.a = (long long)r.below(3); }
+    else { o.name = "assign_sub"; size_t sz = S.size(); o.a = (long long)r.below(sz + 1); o.b = (long long)r.below(sz - (size_t)o.a + 1); }   // substring of itself
+  }
   else { o.name = "astr"; o.a = 0;   // ArenaString<32> indexes its 12-byte `_embedded` member up to 27 (inside the object, but flagged by UBSan bounds)
     text(pick_size(r, {0, 1, 11, 12, 13, 27, 28, 29}, 60)); if (o.bytes.empty()) o.bytes.push_back('q'); }
   str_exec(w, o);
@@ -842,10 +893,10 @@ static void random_step(World& w, vj::Rng& r, const unsigned* weight) {
       size_t small_max = 3000;
       if (k < 30) {
         size_t n = 8 * (1 + r.below(r.chance(1, 5) ? small_max / 8 : 24));
-        if (!w.after_soft && r.chance(1, 25)) n = 8 * (600 + r.below(3000));       // bigger than a block
+        if (r.chance(1, w.after_soft ? 5 : 25)) n = 8 * (100 + r.below(3500));     // bigger than a (retained) block
         if (w.live_raw() < 18) w.arena_alloc(r.chance(1, 4) ? "zeroed" : "oneshot", n);
       } else if (k < 60) {
-        static const std::vector<size_t> e = {1, 16, 17, 32, 33, 64, 128, 129, 256, 512, 1024, 1025, 2048, 2049, 4000};
+        static const std::vector<size_t> e = {1, 15, 16, 17, 32, 33, 64, 65, 128, 129, 256, 257, 512, 513, 1024, 1025, 2047, 2048, 2049, 4000};
         size_t n = std::max<size_t>(1, pick_size(r, e, 5000));
         if (w.live_raw() < 18) w.arena_alloc(r.chance(1, 4) ? "rzeroed" : "reusable", n);
       } else if (k < 85) {
@@ -854,7 +905,7 @@ static void random_step(World& w, vj::Rng& r, const unsigned* weight) {
         if (!cand.empty()) w.arena_free(cand[r.below(cand.size())]);
       } else if (k < 93) {
         if (w.live_raw() < 18) w.arena_dup(1 + r.below(700), r.chance(1, 2));
-      } else if (k < 97) w.arena_reset(!w.soft_ok());
+      } else if (k < 97) w.arena_reset(false);
       else w.arena_reset(true);
       break;
     }
@@ -864,7 +915,12 @@ static void random_step(World& w, vj::Rng& r, const unsigned* weight) {
       uint32_t x = (uint32_t)r.below(r.chance(1, 2) ? 6 : 100000);
       size_t sz = V.size();
       static const std::vector<size_t> e = {0, 1, 4, 5, 8, 16, 17, 21, 22, 32, 64, 65, 85, 86, 128, 256, 257};
-      if (k < 30) w.vec_op("append", v, x);
+      size_t room = V.cap() - sz, osz = w.vec[v ^ 1]->size();
+      if (k < 4) { if (sz < 500) w.vec_op("appendn", v, (long long)(1 + r.below(r.chance(1, 4) ? 200 : 20)), (long long)r.below(1000)); }
+      else if (k < 8 && room) { unsigned u = (unsigned)r.below(3); if (u == 0) w.vec_op("append_u", v, x); else if (u == 1) w.vec_op("prepend_u", v, x); else w.vec_op("insert_u", v, (long long)r.below(sz + 1), x); }
+      else if (k < 10) { if (r.chance(1, 2)) { if (room >= osz) w.vec_op("concat_u", v); } else if (V.cap() >= osz && V.data()) w.vec_op("assign_u", v); }
+      else if (k < 11) w.vec_op("move", v);
+      else if (k < 30) w.vec_op("append", v, x);
       else if (k < 36) w.vec_op("prepend", v, x);
       else if (k < 44) w.vec_op("insert", v, (long long)r.below(sz + 1), x);
       else if (k < 52) { if (sz) w.vec_op("remove_at", v, (long long)r.below(sz)); }
@@ -877,7 +933,8 @@ static void random_step(World& w, vj::Rng& r, const unsigned* weight) {
       else if (k < 76) { if (sz + w.vec[v ^ 1]->size() < 700) w.vec_op("concat", v); }
       else if (k < 79) w.vec_op("swap", v);
       else if (k < 80) w.vec_op("release", v);
-      else if (k < 84) w.vec_op("sort", v);
+      else if (k < 82) w.vec_op("sort", v);
+      else if (k < 84) w.vec_op("sort_desc", v);
       else if (k < 88) w.vec_op("index_of", v, x);
       else if (k < 92) w.vec_op("last_index_of", v, x);
       else if (k < 94) w.vec_op("contains", v, x);
@@ -890,7 +947,9 @@ static void random_step(World& w, vj::Rng& r, const unsigned* weight) {
       int t = (int)r.below(2);
       unsigned k = (unsigned)r.below(100);
       uint32_t key = (uint32_t)r.below(r.chance(1, 2) ? 12 : 400);
-      if (k < 50) { if (w.hnodes.size() < 330) w.hash_op("ins", t, key); }
+      if (k < 4) { if (w.hnodes.size() < 600) w.hash_op("insn", t, (long long)r.below(400), (long long)(1 + r.below(r.chance(1, 3) ? 260 : 40))); }
+      else if (k < 8) { if (!w.hnodes.empty()) w.hash_op("remn", t, (long long)(1 + r.below(w.hnodes.size())), (long long)(1 + r.below(r.chance(1, 3) ? 300 : 30))); }
+      else if (k < 50) { if (w.hnodes.size() < 700) w.hash_op("ins", t, key); }
       else if (k < 72) { if (!w.hnodes.empty()) w.hash_op("rem", t, (long long)(1 + r.below(w.hnodes.size()))); }
       else if (k < 94) w.hash_op("get", t, key);
       else if (k < 97) w.hash_op("swap", t);
@@ -901,9 +960,11 @@ static void random_step(World& w, vj::Rng& r, const unsigned* weight) {
     case C_TREE: {
       int t = (int)r.below(4) == 0 ? 1 : 0;
       unsigned k = (unsigned)r.below(100);
-      uint32_t key = (uint32_t)r.below(r.chance(1, 3) ? 16 : 120);
+      uint32_t key = (uint32_t)r.below(r.chance(1, 3) ? 16 : 400);
       auto& ks = w.tkeys[t];
-      if (k < 45) { if (!ks.count(key) && ks.size() < 90) w.tree_op("ins", t, key); }
+      if (k < 3) { if (ks.size() < 300) w.tree_op("insn", t, (long long)r.below(400), (long long)(1 + r.below(r.chance(1, 3) ? 200 : 25)), (long long)r.below(2)); }
+      else if (k < 6) w.tree_op("remn", t, (long long)r.below(400), (long long)(1 + r.below(r.chance(1, 3) ? 200 : 25)), (long long)r.below(2));
+      else if (k < 45) { if (!ks.count(key) && ks.size() < 300) w.tree_op("ins", t, key); }
       else if (k < 80) { if (!ks.empty()) { auto it = ks.lower_bound(key); if (it == ks.end()) it = ks.begin(); w.tree_op("rem", t, *it); } }
       else if (k < 95) w.tree_op("get", t, key);
       else if (k < 98) w.tree_op("swap", t);
@@ -1011,7 +1072,7 @@ static void run_random_exec(vj::Rng& r, unsigned steps) {
   if (!w.dead) {
     w.vec_op("all", 0); w.hash_op("all", 0);
     w.arena_ext("final");
-    if (r.chance(1, 2)) w.arena_reset(r.chance(1, 2) || !w.soft_ok());
+    if (r.chance(1, 2)) w.arena_reset(r.chance(1, 2));
     if (!w.dead) { delete w.arena; }
   }
 }
@@ -1027,6 +1088,9 @@ static void run_script(const vj::Value& s, vj::Rng& r) {
   w.new_arena(blk, stat);
   w.headers();
   std::string c = s["c"].s();
+  if (s.has("nodes")) for (long long i = 0; i < s["nodes"].i(); i++) {      // list nodes 1..n exist before the script starts
+    w.lnodes.push_back(w.arena->new_oneshot<LNode>((uint32_t)w.lnodes.size() + 1)); w.lwhere.push_back(-1);
+  }
   for (auto& op : s["ops"].arr) {
     if (w.dead) break;
     std::string name = op[0].s();
@@ -1044,8 +1108,8 @@ static void run_script(const vj::Value& s, vj::Rng& r) {
       else w.arena_alloc(name.c_str(), (size_t)A(1));
     }
     else if (c == "vector") w.vec_op(name, (int)A(1) - 1, A(2), A(3));
-    else if (c == "hash") w.hash_op(name, (int)A(1) - 1, A(2));
-    else if (c == "tree") w.tree_op(name, (int)A(1) - 1, A(2));
+    else if (c == "hash") w.hash_op(name, (int)A(1) - 1, A(2), A(3));
+    else if (c == "tree") w.tree_op(name, (int)A(1) - 1, A(2), A(3), A(4));
     else if (c == "list") w.list_op(name, (int)A(1) - 1, A(2), A(3));
     else if (c == "bitset") w.bs_op(name, (int)A(1) - 1, A(2), A(3));
     else if (c == "bitvec") w.bv_op(name, (int)A(1) - 1, A(2), A(3));
